@@ -8,6 +8,7 @@ is documented.  Generators draw only inside this table.
 | crop name | one of the keys of crop_params | Crop.__init__ assert |
 | planting_date | 'mm/dd', never 02/29 | Crop docstring; leap day cannot recur yearly |
 | crop overrides | documented switch sets (ETadj, PlantMethod, GDDmethod 1-3, Pol*/TrColdStress 0/1, Determinant 0/1 for fruit/grain crops only - leafy and root/tuber crops have no flowering period -, SwitchGDD 0/1) and, at a low rate, plausible values of three 'default program properties' (LagAer 2-8 days, Aer 2-15 vol%, GermThr 0.1-0.4; not in the C16 sweep, whose quantifier names the option switches only; LagAer = 1 is excluded: the per-compartment aeration factor is then 0/0) | Notebook 1 appendix table; Crop class docstring |
+| calibrated crop parameters (C04, C05 only) | one or two of GDD_lo (2-5), GDD_up (10-14), CCx (0.7-0.95 of the default), Zmax (0.5-0.75 of the default, >= 0.4 m), Kcb (0.9-1.15), fage (0.05-0.3) | Crop class docstring (every parameter may be overridden) |
 | soil type | one of the 15 built-ins or 'custom' with add_layer / add_layer_from_texture | Soil.__init__, Notebook 1 |
 | dz | compartments 0.05-0.2 m (the deepening loop only extends compartments < 0.25 m) | read_model_parameters |
 | custom layer | th_dry < wp < fc < sat (fc == sat makes the drainage characteristic 0/0; no built-in soil has it), Ksat > 0, penetrability 0-100 | Notebook 1 |
